@@ -247,6 +247,11 @@ func (g *c08gen) route(kind string, pkg, svc string) *gRoute {
 		return r
 	}
 	r.Conds = g.conds()
+	if g.r.chance(6) {
+		// a route that selects no cluster (redirect, direct response): it still is the first match; the call then fails with
+		// a routing error, it does not fall through to a later route
+		r.Clusters = nil
+	}
 	if kind == "http" {
 		full := "/" + pkg + "." + svc + "/"
 		if pkg == "" {
